@@ -202,6 +202,13 @@ def stepLine (st : St) (line : String) : St × String :=
       | some i => (st, if p.cellIsAllocated i then "1" else "0")
       | none => bad
     | .ipool p, ["sz"] => (st, s!"{p.cells} {p.elemsz}")
+    | .ipool _, ["ri", e, n] =>
+      -- `init(zone, size, elsize)` again on the same object: every member is assigned, `pool_init` empties the list
+      match e.toNat?, n.toNat? with
+      | some e, some n =>
+        let p := IPool.init (n * e) e
+        (.ipool p, s!"{p.cells} {p.room} {p.avail}")
+      | _, _ => bad
     | .ipool p, ["it"] =>
       (st, "it:" ++ String.join (p.iterAll.map fun i => s!" {i}"))
     | .sop st p zt, ["c"] =>
